@@ -201,7 +201,14 @@ def parse_keywords(lines, multiline_values=True, key_hints=None, raw_values=Fals
                 rtn[line.strip()] = DEFAULT_VALUE
 
             elif multiline_values is False:
-                rtn[key] = value
+                if key in rtn:
+                    # keep the earlier values of a repeated key
+                    if isinstance(rtn[key], list):
+                        rtn[key].append(value)
+                    else:
+                        rtn[key] = [rtn[key], value]
+                else:
+                    rtn[key] = value
                 rtn[line.strip()] = DEFAULT_VALUE
                 key = None
                 value = ''
